@@ -2844,6 +2844,176 @@ fn vsize(out: &mut Out, rng: &mut Rng, thorough: bool) {
 	}
 }
 
+// ---------------------------------------------------------------------------------------------
+// nonce mode: the nonce passed to set_header_nonce is part of the seed, for every value incl. 0
+// ---------------------------------------------------------------------------------------------
+
+fn splice(hdr: &[u8], n: u32) -> Vec<u8> {
+	let mut h = hdr[..hdr.len() - 4].to_vec();
+	h.extend_from_slice(&n.to_le_bytes());
+	h
+}
+
+fn nonce_str(n: Option<u32>) -> String {
+	n.map(|x| x.to_string()).unwrap_or("none".to_string())
+}
+
+fn nonce_run(out: &mut Out, rng: &mut Rng, thorough: bool) {
+	let ps = 8usize;
+	set_chain_for(ps);
+	let mut st: HashMap<String, u64> = HashMap::new();
+	let mut hit = |st: &mut HashMap<String, u64>, k: &str| *st.entry(k.to_string()).or_insert(0) += 1;
+	// (i) the four siphash keys for (header, nonce): headers whose last four bytes are zero /
+	// non-zero / equal to the nonce, nonces None, Some(0), Some(1), Some(u32::MAX), Some(random)
+	let lens: Vec<usize> = if thorough { vec![4, 5, 7, 8, 9, 16, 80, 80, 80, 81, 113, 238, 300] } else { vec![4, 5, 8, 80, 80, 113, 238] };
+	for len in lens.iter() {
+		for tail in ["zero", "nonzero", "eq-nonce"].iter() {
+			for nonce in [None, Some(0u32), Some(1), Some(u32::MAX), Some(rng.next() as u32), Some(0x0100_0000)].iter() {
+				let mut hdr = rng.bytes(*len);
+				let l = hdr.len();
+				match *tail {
+					"zero" => hdr[l - 4..].copy_from_slice(&[0, 0, 0, 0]),
+					"nonzero" => {
+						for b in hdr[l - 4..].iter_mut() {
+							*b |= 0x11;
+						}
+					}
+					_ => {
+						if let Some(n) = nonce {
+							hdr[l - 4..].copy_from_slice(&n.to_le_bytes());
+						}
+					}
+				}
+				let hc = hdr.clone();
+				let nn = *nonce;
+				let k = match catch(move || real_keys(&hc, nn)) {
+					Ok(k) => k,
+					Err(_) => {
+						out.raw(&format!("#ORACLE-FAIL C05 set_header_nonce panicked: header={} nonce={}", hex(&hdr), nonce_str(*nonce)));
+						continue;
+					}
+				};
+				hit(&mut st, &format!("keys_{}_{}", tail, match nonce { None => "none", Some(0) => "some0", Some(1) => "some1", Some(u32::MAX) => "somemax", _ => "someother" }));
+				// independent derivation: the real code on the header spliced BY HAND, without a nonce
+				let spliced = match nonce {
+					Some(n) => splice(&hdr, *n),
+					None => hdr.clone(),
+				};
+				let k2 = real_keys(&spliced, None);
+				if k != k2 {
+					out.raw(&format!(
+						"#ORACLE-FAIL C05 siphash keys of (header, nonce {}) are not those of the header with the nonce spliced into its last 4 bytes: header={} keys=[{}] expected=[{}]",
+						nonce_str(*nonce), hex(&hdr), keys_str(&k), keys_str(&k2)
+					));
+				}
+				if let Some(n) = nonce {
+					if hdr[l - 4..] != n.to_le_bytes() && k == real_keys(&hdr, None) {
+						out.raw(&format!(
+							"#ORACLE-FAIL C05 nonce {} ignored: (header, Some(nonce)) gives the keys of the unmodified header={} keys=[{}]",
+							n, hex(&hdr), keys_str(&k)
+						));
+					}
+				}
+				out.line(&format!("pow keysspec {} {}", hex(&hdr), nonce_str(*nonce)), &keys_str(&k));
+			}
+		}
+	}
+	// (ii) all five graph definitions: a cycle of the graph of header||nonce (spliced by hand, keys
+	// derived without a nonce) verifies in a context seeded with (original header, Some(nonce)) and is
+	// refused by a context seeded with the unmodified header
+	let ebs: Vec<u8> = if thorough { vec![6, 7, 8, 9, 10, 11, 12] } else { vec![6, 7, 8, 10] };
+	for v in VARS.iter() {
+		for eb in ebs.iter() {
+			for (ni, n) in [0u32, 1, u32::MAX, rng.next() as u32, 0].iter().enumerate() {
+				// header tail: non-zero (and not the nonce); for the last round zero with nonce 0
+				let mut found: Option<(Vec<u8>, Vec<u8>, [u64; 4], Vec<u64>)> = None;
+				for _ in 0..600 {
+					let mut hdr = rng.bytes(80);
+					if ni == 4 {
+						hdr[76..].copy_from_slice(&[0, 0, 0, 0]);
+					} else {
+						for b in hdr[76..].iter_mut() {
+							*b |= 0x11;
+						}
+						if hdr[76..] == n.to_le_bytes() {
+							continue;
+						}
+					}
+					let spliced = splice(&hdr, *n);
+					let keys = real_keys(&spliced, None);
+					let eps_all: Vec<(u64, u64)> = (0..(1u64 << *eb)).map(|x| v.ep(&keys, *eb, x)).collect();
+					let mut budget = 300_000u64;
+					let cyc = find_cycles(*v, &eps_all, ps, &mut budget, 1);
+					if let Some(c) = cyc.into_iter().next() {
+						found = Some((hdr, spliced, keys, c));
+						break;
+					}
+				}
+				let (hdr, spliced, keys, cyc) = match found {
+					Some(x) => x,
+					None => {
+						hit(&mut st, "no_cycle_found");
+						continue;
+					}
+				};
+				let edge_mask = (1u64 << *eb) - 1;
+				let mut near = cyc.clone();
+				near[ps - 1] = if near[ps - 1] < edge_mask { near[ps - 1] + 1 } else { near[ps - 1] - 1 };
+				near.sort_unstable();
+				near.dedup();
+				let mut ctx = v.ctx(*eb, ps);
+				out.line(&format!("pow hnew {} {} {} {}", v.name(), eb, ps, ps), "ok");
+				let tail = if ni == 4 { "zero-tail" } else { "nonzero-tail" };
+				let seedings: Vec<(&str, Vec<u8>, Option<u32>)> = vec![
+					("header+Some(nonce)", hdr.clone(), Some(*n)),
+					("header+None", hdr.clone(), None),
+					("spliced+None", spliced.clone(), None),
+					("spliced+Some(nonce)", spliced.clone(), Some(*n)),
+					("header+Some(nonce^1)", hdr.clone(), Some(*n ^ 1)),
+					("header+Some(nonce)", hdr.clone(), Some(*n)),
+				];
+				for (what, h, nonce) in seedings.iter() {
+					let r = ctx.set_header_nonce(h.clone(), *nonce, false);
+					if r.is_err() {
+						out.raw(&format!("#ORACLE-FAIL C05 set_header_nonce failed: {} header={} nonce={}", v.name(), hex(h), nonce_str(*nonce)));
+						continue;
+					}
+					let shown = if *v == Var::Cuckatoo { keys_str(&real_keys(h, *nonce)) } else { "-".to_string() };
+					out.line(&format!("pow hseed {} {} false", hex(h), nonce_str(*nonce)), &shown);
+					// the graph this seeding must give: the header with the nonce spliced in
+					let want_bytes = match nonce {
+						Some(x) => splice(h, *x),
+						None => h.clone(),
+					};
+					let wkeys = real_keys(&want_bytes, None);
+					for (pname, p) in [("cycle", &cyc), ("near-miss", &near)].iter() {
+						let proof = Proof { edge_bits: *eb, nonces: p.to_vec() };
+						let cref = std::panic::AssertUnwindSafe(&ctx);
+						let res = match catch(move || err_name(&cref.verify(&proof))) {
+							Ok(s) => s,
+							Err(_) => "panic",
+						};
+						let eps: Vec<(u64, u64)> = p.iter().map(|x| v.ep(&wkeys, *eb, *x)).collect();
+						let want = oracle(*v, ps, edge_mask, &eps, p);
+						hit(&mut st, &format!("{}_n{}_{}_{}_{}", tail, match ni { 0 | 4 => "0", 1 => "1", 2 => "max", _ => "rnd" }, what, pname, if res == "ok" { "accepted" } else { "refused" }));
+						if (res == "ok") != want {
+							out.raw(&format!(
+								"#ORACLE-FAIL C05 {} edge_bits={} context seeded with ({}, nonce {}) [{}]: verify of the {} {} of the graph of header||nonce answered {} but the graph of the seeding {} it: header={} spliced={} keys_of_spliced=[{}]",
+								v.name(), eb, what, nonce_str(*nonce), tail, pname, nat_list(p), res,
+								if want { "contains" } else { "does not contain" }, hex(&hdr), hex(&spliced), keys_str(&keys)
+							));
+						}
+						out.line(&format!("pow hverify {}:{} {}", what.replace(' ', "_"), pname, nat_list(p)), res);
+					}
+				}
+			}
+		}
+	}
+	let mut parts: Vec<String> = st.iter().map(|(k, v)| format!("{}={}", k, v)).collect();
+	parts.sort();
+	out.raw(&format!("#STAT nonce: {}", parts.join(" ")));
+}
+
 fn main() {
 	quiet_panics();
 	let args: Vec<String> = std::env::args().collect();
@@ -2864,6 +3034,7 @@ fn main() {
 		"pack" => pack(&mut out, &mut rng, thorough),
 		"select" => select(&mut out, &mut rng, thorough),
 		"hist" => hist(&mut out, &mut rng, thorough),
+		"nonce" => nonce_run(&mut out, &mut rng, thorough),
 		"dif" => dif(&mut out, &mut rng, thorough),
 		"vsize" => vsize(&mut out, &mut rng, thorough),
 		_ => panic!("unknown mode"),
